@@ -29,6 +29,7 @@ type FuncContract struct {
 	PkgPath      string
 	Requires     []*Clause
 	Ensures      []*Clause
+	Names        []*Clause // `names` clauses: assumed at call sites only (they give the result of a deterministic function a name)
 	Maintains    []*Clause
 	Asserts      map[int][]*Clause
 	Uses         []string // lemmas (proved separately) made available to this function's obligations
@@ -89,7 +90,7 @@ func NewContractSet() *ContractSet {
 	return &ContractSet{Funcs: map[string]*FuncContract{}, Specs: map[string]*SpecFn{}, Ghosts: map[string]*GhostDecl{}, Invs: map[string]*NamedInv{}, OpaqueSorts: map[string]bool{}}
 }
 
-var kwRe = regexp.MustCompile(`^(spec|axiom|ghost|inv|func|extern|requires|ensures|maintains|modifies|may_panic|deterministic|nooverflow|inline|mode|bytes|loop|assert|locals|lemma|uses|unfold|counts|on_send|trusted|pure|opaque|reveal|bounded|keyfns|keyfn|sort|replay|abstract)\b`)
+var kwRe = regexp.MustCompile(`^(spec|axiom|ghost|inv|func|extern|requires|ensures|maintains|modifies|may_panic|deterministic|nooverflow|inline|mode|bytes|loop|assert|locals|lemma|uses|unfold|counts|on_send|names|trusted|pure|opaque|reveal|bounded|keyfns|keyfn|sort|replay|abstract)\b`)
 
 // logical lines: (keyword, rest, line number)
 type cline struct {
@@ -197,7 +198,7 @@ func (cs *ContractSet) LoadFile(path, pkgPath string) error {
 			cur.Maintains = append(cur.Maintains, c)
 			cur.Requires = append(cur.Requires, c)
 			cur.Ensures = append(cur.Ensures, c)
-		case "requires", "ensures":
+		case "requires", "ensures", "names":
 			if cur == nil {
 				return fmt.Errorf("%s:%d: clause outside func", path, l.line)
 			}
@@ -205,9 +206,12 @@ func (cs *ContractSet) LoadFile(path, pkgPath string) error {
 			if err != nil {
 				return err
 			}
-			if l.kw == "requires" {
+			switch l.kw {
+			case "requires":
 				cur.Requires = append(cur.Requires, c)
-			} else {
+			case "names":
+				cur.Names = append(cur.Names, c)
+			default:
 				cur.Ensures = append(cur.Ensures, c)
 			}
 		case "uses":
